@@ -226,7 +226,14 @@ class ExprMixin:
         cur = self.ev(node.values[0])
         for nxt in node.values[1:]:
             tv = self.truthy(cur)
-            if self.spec_mode or self._pure_expr(nxt):
+            tvs = z3.simplify(tv)
+            if z3.is_true(tvs) or z3.is_false(tvs):
+                # decided: python does not evaluate the remaining operands
+                if z3.is_true(tvs) != is_and:
+                    return cur
+                cur = self.ev(nxt)
+                continue
+            if self.in_pure_mode() or self._pure_expr(nxt):
                 other = self.ev(nxt)
                 cur = self._select(tv if not is_and else z3.Not(tv), cur, other, node.lineno)
             else:
